@@ -4,6 +4,8 @@ import (
 	"bytes"
 	"fmt"
 	"strings"
+	"sync"
+	"time"
 
 	"verifengine/core"
 )
@@ -110,7 +112,14 @@ func c12Scenario(bound int, name string) *core.Scenario {
 			pi := c.Pick("prog", len(c12Programs))
 			prog := c12Programs[pi]
 			var lay, canon strings.Builder
-			eol := []string{"\n", "\r\n", "\r"}[c.Dev("eol", 3)]
+			var eol string
+			if bound <= 1 {
+				// quick tier: the line-ending convention is a free dimension (not counted against the bound),
+				// so that every single deviation is also seen under CRLF and CR
+				eol = []string{"\n", "\r\n", "\r"}[c.Pick("eol", 3)]
+			} else {
+				eol = []string{"\n", "\r\n", "\r"}[c.Dev("eol", 3)]
+			}
 			beforeIdx := c.Dev("before", len(c12Before))
 			lay.WriteString(c12Before[beforeIdx])
 			lead0, nofinalF, firstIsLabel := 0, false, false
@@ -206,9 +215,103 @@ func c12Scenario(bound int, name string) *core.Scenario {
 	}
 }
 
+// c12CLI: the layout dimensions that the command-line front end itself handles (character-set
+// decoding and whatever it does to the text before parsing): line endings x final newline x a
+// trailing comment on the last line x a leading comment line, through the REAL command.
+func c12CLI(r *core.Run, tier string) {
+	t0 := time.Now()
+	p := r.Cfg.Pool
+	type variant struct {
+		eol                      string
+		nofinal, comment, leader bool
+	}
+	var vs []variant
+	for _, e := range []string{"\n", "\r\n", "\r"} {
+		for _, nf := range []bool{false, true} {
+			for _, cm := range []bool{false, true} {
+				for _, ld := range []bool{false, true} {
+					vs = append(vs, variant{e, nf, cm, ld})
+				}
+			}
+		}
+	}
+	var mu sync.Mutex
+	var spawns, nontriv int64
+	var wg sync.WaitGroup
+	sem := make(chan struct{}, p.N)
+	for pi, prog := range c12Programs {
+		var canon strings.Builder
+		for _, st := range prog {
+			toks, mand := c12Tokens(st)
+			col0 := strings.HasSuffix(toks[0], ":") || (len(toks) > 1 && toks[1] == "EQU")
+			if !col0 {
+				canon.WriteString("\t")
+			}
+			for ti, t := range toks {
+				canon.WriteString(t)
+				if ti < len(toks)-1 && mand[ti] {
+					canon.WriteString(" ")
+				}
+			}
+			canon.WriteString("\n")
+		}
+		csrc := canon.String()
+		firstIsLabel := strings.HasSuffix(strings.Fields(prog[0])[0], ":")
+		ref := p.CLI(csrc, nil, false)
+		for _, v := range vs {
+			if v.leader && firstIsLabel {
+				continue // known finding C12-F01 (comment line before a first-statement label)
+			}
+			wg.Add(1)
+			sem <- struct{}{}
+			go func(pi int, v variant) {
+				defer wg.Done()
+				defer func() { <-sem }()
+				src := csrc
+				if v.comment {
+					src = strings.TrimSuffix(src, "\n") + " ; last comment\n"
+				}
+				if v.leader {
+					src = "; leading comment\n" + src
+				}
+				if v.nofinal {
+					src = strings.TrimSuffix(src, "\n")
+				}
+				if v.eol != "\n" {
+					src = strings.ReplaceAll(src, "\n", v.eol)
+				}
+				got := p.CLI(src, nil, false)
+				mu.Lock()
+				spawns++
+				if len(ref.Out) > 0 {
+					nontriv++
+				}
+				mu.Unlock()
+				if got.ExitCode != ref.ExitCode || !bytes.Equal(got.Out, ref.Out) {
+					dev := "bytes_differ"
+					if got.ExitCode != ref.ExitCode {
+						dev = fmt.Sprintf("exit:%d", got.ExitCode)
+					} else if len(got.Out) != len(ref.Out) {
+						dev = fmt.Sprintf("length:%+d", len(got.Out)-len(ref.Out))
+					}
+					r.AddFail("cli_layouts", fmt.Sprintf("prog %d|%q", pi, src),
+						map[string]string{"prog": fmt.Sprint(pi), "eol": fmt.Sprintf("%q", v.eol), "nofinal": fmt.Sprint(v.nofinal), "comment": fmt.Sprint(v.comment), "leader": fmt.Sprint(v.leader)},
+						[]string{src, csrc}, core.Fail{Facet: "cli_layout", Dev: dev, Detail: fmt.Sprintf("command gives %x (exit %d), canonical layout %x", got.Out, got.ExitCode, ref.Out)})
+				}
+				r.AddNT(fmt.Sprintf("cli|%d|%v", pi, v))
+			}(pi, v)
+		}
+	}
+	wg.Wait()
+	r.AddSample(map[string]any{"cli_layout": "program 0 with CR line endings, no final newline, a comment on the last line"})
+	r.AddCustom("cli_layouts", "25 programs x {LF, CRLF, CR} x {final newline, none} x {comment on the last line, none} x {leading comment line, none}, each written to a file and assembled by the REAL command (so the front end's decoding and pre-processing are included); output and exit status must equal the canonical layout's",
+		map[string]any{"programs": len(c12Programs), "variants": len(vs)}, spawns+1, spawns, spawns, nontriv, 1, true, time.Since(t0).Seconds())
+}
+
 func init() {
 	register(&Property{
 		ID: "C12",
+		Custom: c12CLI,
 		Scenarios: func(tier string) []*core.Scenario {
 			if tier == "thorough" {
 				return []*core.Scenario{c12Scenario(2, "layout_dev2")}
